@@ -22,6 +22,10 @@ pub struct StCase {
     /// the game keeps its snapshots itself: cell.save(frame, None, Some(checksum))
     #[serde(default)]
     pub own_snapshots: bool,
+    /// every input is registered twice per tick, first a decoy and then the real value (documented: the
+    /// older one is overwritten)
+    #[serde(default)]
+    pub double_submit: bool,
 }
 
 pub struct StOut {
@@ -96,6 +100,9 @@ pub fn run_case(c: &StCase) -> StOut {
         let before = sess.current_frame();
         for h in 0..np {
             let v = true_input(c.seed, h, before, 4);
+            if c.double_submit {
+                let _ = sess.add_local_input(h, I1::from_v((v + 1 + (before as u32 % 3)) % 4));
+            }
             if let Err(e) = sess.add_local_input(h, I1::from_v(v)) {
                 out.errors.push(("C13.add_local_input".into(), format!("add_local_input({h}) -> {e:?}")));
             }
@@ -242,7 +249,7 @@ fn det_case(i: u64, seed: u64, frames: u16) -> StCase {
     k /= 4;
     let sparse = k % 2 == 1;
     k /= 2;
-    StCase { players, window, cd, delay, sparse, frames, seed: mix(seed, k), pert: None, own_snapshots: seed % 2 == 1 }
+    StCase { players, window, cd, delay, sparse, frames, seed: mix(seed, k), pert: None, own_snapshots: seed % 2 == 1, double_submit: (seed >> 1) % 2 == 1 }
 }
 const DET_CONFIGS: u64 = 4 * 10 * 12 * 4 * 2;
 
@@ -255,7 +262,7 @@ fn detect_cases(max_f: i32) -> Vec<StCase> {
                     for f in 0..=max_f {
                         for pat in 0..4u8 {
                             for own_snapshots in [false, true] {
-                                v.push(StCase { players, window, cd, delay, sparse: false, frames: (f + cd as i32 + 12) as u16, seed: 7, pert: Some((f, pat)), own_snapshots });
+                                v.push(StCase { players, window, cd, delay, sparse: false, frames: (f + cd as i32 + 12) as u16, seed: 7, pert: Some((f, pat)), own_snapshots, double_submit: (f + pat as i32) % 3 == 0 });
                             }
                         }
                     }
@@ -307,7 +314,7 @@ pub fn c02_part(ctx: &Ctx) -> PartReport {
             let r = mix(seed ^ 0xc02, i);
             let window = 1 + (r % 10) as u8;
             let cd = ((r >> 8) % window as u64) as u8;
-            StCase { players: 1 + ((r >> 16) % 4) as u8, window, cd, delay: [0u8, 1, 3, 7][((r >> 24) % 4) as usize], sparse: false, frames: 150, seed: r, pert: None, own_snapshots: (r >> 32) % 3 == 0 }
+            StCase { players: 1 + ((r >> 16) % 4) as u8, window, cd, delay: [0u8, 1, 3, 7][((r >> 24) % 4) as usize], sparse: false, frames: 150, seed: r, pert: None, own_snapshots: (r >> 32) % 3 == 0, double_submit: (r >> 36) % 2 == 0 }
         },
         |c| {
             let mut r = eval(c);
